@@ -13,6 +13,11 @@ tie:   generated values x keys x every configuration `Cache.setup('mem://?...')`
        writes and reads - a type registered before / after cache.setup(), between two caches, written before it was
        registered, a name registered again with another codec - under every configuration; the model is asked with the
        registry of the moment of each call (Model/Serial.lean: `reg` is an argument of encode and of decode).
+       Classes: the driver is told the CLASS handed to register_type and the class of each value (__name__ and
+       __qualname__) and derives the registry key itself with ONE function (Klass.tag) for both; registered classes
+       nested in classes and local to functions are written and read under every configuration, classes sharing a
+       __name__ and subclasses of registered classes in registration programs; (c) "through that pair": the registered
+       encoder ran during the write, the registered decoder during the read.
 
 "json where applicable": the json pickler is exercised on JSON-native shapes only (None, bool, int, float, str, lists,
 dicts with str keys, recursively) plus top-level bytes / registered custom types (never handed to json) and top-level
@@ -46,6 +51,8 @@ TRUSTED = [
     "hypothesis dec_read(enc_write v) = v of decode_encode_registries is evaluated literally on the harness codecs - where it fails "
     "(incompatible codec) only implementation == model is compared",
     "harness isolation of registration programs resets Serializer._type_mapping (the class-level dict) between programs",
+    "harness: 'class C is registered' = C was handed to register_type and no class with the same __name__ was registered "
+    "after it (serial.slot mirrors Klass.tag); the harness' codecs record their own invocations (serial.CODEC_CALLS)",
     "harness: canonical form of values (harness/serial.py canon), instrumented pickler, protocol encoding",
 ]
 
@@ -53,7 +60,7 @@ TRUSTED = [
 PATH_TAGS = {"unpickle_path", "custom_decode_path", "passthrough_object", "raw_int", "separator_in_key", "digit_key"}
 
 NS = {"datetime": datetime, "decimal": decimal, "Decimal": decimal.Decimal, "inf": float("inf"), "nan": float("nan"),
-      "Rec": S.Rec, "Point": S.Point, "Pair": S.Pair, "Triple": S.Triple, **S.BOX}
+      "Rec": S.Rec, "Point": S.Point, "Pair": S.Pair, "Triple": S.Triple, **S.BOX, **S.NS_CLASSES}
 
 
 def conf_to_json(c: S.Conf) -> dict:
@@ -83,16 +90,20 @@ def run_impl(conf: S.Conf, pairs):
         recs = [{"key": k, "value": v} for k, v in pairs]
         for r in recs:
             rec.reset()
+            del S.CODEC_CALLS[:]
             try:
                 r["set"] = await cache.set(r["key"], r["value"])
             except Exception as exc:  # noqa: BLE001
                 r["set"] = "raised:" + type(exc).__name__
             r["dumps"] = list(rec.dumps_calls)
+            r["enc_calls"] = list(S.CODEC_CALLS)
             r["rawA"] = await cache.get_raw(r["key"])
         for r in recs:
             rec.reset()
+            del S.CODEC_CALLS[:]
             r["getA"] = await S.read(cache.get(r["key"], default=S.SENT))
             r["loadsA"] = list(rec.loads_calls)
+            r["dec_calls"] = list(S.CODEC_CALLS)
             rec.reset()
             o = await S.read(cache.get(r["key"]))
             r["getC"] = o
@@ -121,7 +132,8 @@ def run_impl(conf: S.Conf, pairs):
 
 def check_hyps(conf: S.Conf, v, hyp):
     """validate P1-P3 for the real pickler of this configuration on the value v (sampling)"""
-    if conf.pk != "real" or type(v) is int or type(v).__name__.encode() in S.Serializer._type_mapping:
+    slots = S.registered_slots()
+    if conf.pk != "real" or type(v) is int or S.slot(type(v)) in slots:
         return
     from cashews.picklers import PicklerType, get_pickler
 
@@ -133,7 +145,7 @@ def check_hyps(conf: S.Conf, v, hyp):
     except Exception:  # noqa: BLE001
         d, p1 = None, False
     for name, ok in (("P1", p1),
-                     ("P2", d is not None and not (b":" in d and d.split(b":", 1)[0] in S.Serializer._type_mapping)),
+                     ("P2", d is not None and not (b":" in d and d.split(b":", 1)[0] in slots)),
                      ("P3", d is not None and not d.isdigit() and not (d[:1] == b"-" and d[1:].isdigit()))):
         h = hyp.setdefault(name, {"checked": 0, "failed": 0, "first_failure": None})
         h["checked"] += 1
@@ -158,7 +170,7 @@ def evaluate(cases, ids: S.Ids):
 
     def base(ci, r):
         conf = cases[ci][0]
-        return f"{conf.fields()} key={r['key'].encode('utf8').hex()}"
+        return f"{conf.fields()} {S.key_field(r['key'])}"
 
     def dumps_field(r):
         if r["dumps"]:
@@ -213,6 +225,14 @@ def evaluate(cases, ids: S.Ids):
             if kind != "value" or S.canon_s(got) != want:
                 shown = f"{got!r} ({type(got).__name__})" if kind == "value" else (kind + (":" + str(got) if got else ""))
                 pr.append(("spec", f"{label}: stored {v!r} ({type(v).__name__}) under {r['key']!r}, read back {shown}"))
+        # ---- (c) "round-trip through that pair": the pair registered for the value's class was used
+        own = S.registered_slots().get(S.slot(type(v)))
+        if isinstance(v, S.Boxed) and own is not None and own[0] is type(v):
+            if ("enc", type(v), own[1]) not in r["enc_calls"]:
+                pr.append(("spec", f"set({r['key']!r}, {v!r}): {type(v).__qualname__} was handed to register_type but its encoder "
+                                   f"was not called; stored form {r['rawA']!r:.80}"))
+            elif ("dec", type(v), own[1]) not in r["dec_calls"]:
+                pr.append(("spec", f"get({r['key']!r}) of {v!r}: {type(v).__qualname__} is registered but its decoder was not called"))
         # ---- (a) implementation vs model
         m_stored = a2[i].split()[0]
         for which in ("rawA", "rawB"):
@@ -248,6 +268,8 @@ def evaluate(cases, ids: S.Ids):
             t.add("bool_top_level")
         if isinstance(v, S.Boxed):
             t.add("custom_type")
+            if type(v).__qualname__ != type(v).__name__:
+                t.add("custom_type_nested_or_function_local")
             if b"\n" in v.payload or b"." in v.payload:
                 t.add("custom_payload_with_pickle_opcodes")
         if isinstance(v, (list, tuple, set, frozenset, dict)) and len(v) == 0:
@@ -414,6 +436,10 @@ def run(chk: Check) -> int:
                       no_input=True)
         found += 1
     confs = S.all_confs()
+    # secrets that look like numbers / are given as str keywords: judged like every other configuration where the
+    # configuration can sign at all (probed on the real code); the others are listed, not judged
+    secret_probe = {f"{c.via}:secret={c.secret!r}": c.probe() for c in S.spelled_secret_confs()}
+    confs += [c for c in S.spelled_secret_confs() if c.probe() == "signed"]
     n = chk.budget(5000, 80000)
     cases = [("corpus:" + name, conf, pairs) for name, conf, pairs in corpus_cases()]
     ncorpus = len(cases)
@@ -518,14 +544,18 @@ def run(chk: Check) -> int:
                     "registry reset to what `import cashews` leaves; six fixed orderings (registered before the cache; after it; between "
                     "two caches, each reading what the other wrote; the same name registered again with another codec after writes and "
                     "reads; another name registered between write and read; value written before its type was registered and read "
-                    f"after) x each of the {len(confs)} configurations, plus random programs over two caches, three names, three keys. The model "
+                    "after; a registered class nested in a class / local to a function; two classes with one __name__ in different "
+                    "scopes registered one after the other; instances of subclasses of a registered class, with their own and with the "
+                    f"parent's __name__) x each of the {len(confs)} configurations, plus random programs over two caches, three of "
+                    f"{len(R.NAMES)} classes, three keys. The driver gets the classes (name + qualified name) and derives the registry keys. The model "
                     "is asked with the list of registrations made so far at each call. Non-trivial iff some read happened in one of "
                     "the states of interesting_states_programs (custom_decode_path alone does not count)",
         },
         "rule": "cases = 1..4 (key, value) pairs from VERIF_SEED: values from a recursive generator (depth <= 3) over None/bool/int/float/"
                 "str/bytes/Decimal/date/datetime/time/timedelta/tuple/list/set/frozenset/dict/dataclasses/named tuples with adversarial "
                 "leaves (b'123', b'md5:x_y', '_', ':', empty containers, NaN, -0.0, lone surrogate), or an instance of one of "
-                f"{len(S.BOX_NAMES)} registered custom classes whose names start with pickle opcodes; keys from a {len(S.KEYS)}-key text alphabet; "
+                f"{len(S.BOX_NAMES)} registered custom classes whose names start with pickle opcodes or of a registered class nested in a "
+                f"class (Api.Session) / local to a function (LocalSample); keys from a {len(S.KEYS)}-key text alphabet; "
                 f"round-robin over {len(confs)} configurations = {{pickle_type omitted,null,default,json}} x {{no secret, secret x md5,sha1,sha256,sum}} "
                 "through the settings url plus keyword-argument variants; json gets JSON-native shapes, top-level bytes and custom types only. "
                 "Each case is run through set/get, set_many/get_many and get with default None. Non-trivial iff at least one pair is adversarial for "
@@ -540,10 +570,16 @@ def run(chk: Check) -> int:
         "interesting_states_cases": interesting,
         "decode_path_cases": path_hist,
         "pickler_hypotheses_sampled": hyp,
+        "secret_spellings_probed": secret_probe,
         "trusted_base": TRUSTED,
         "partial": "P1-P3 for pickle/json are sampled, not proved; dill/sqlalchemy picklers are not installed; redis/diskcache backends "
-                   "are not exercised (C09 is anchored on the in-memory backend); a secret consisting only of digits in the settings url "
-                   "is turned into an int by the url parser and makes every write fail (not judged: no statement about secrets' shape)",
+                   "are not exercised (C09 is anchored on the in-memory backend); a numeric-looking secret in the settings url is turned "
+                   "into an int / float by the url parser: every write then raises TypeError ('secret=0': an unsigned cache) - such "
+                   "configurations are probed and, where they cannot sign, listed in secret_spellings_probed and NOT judged (reported "
+                   "as defect 'url-numeric-secret' (id to be assigned by the coordinator) with proposed_fixes/C09_url_secret_stays_text.diff); two classes that share a __name__ share one "
+                   "registry slot (the later register_type serves both) and an instance of a subclass that keeps its registered "
+                   "parent's __name__ is written through the parent's pair and read back as the parent: mirrored by the model "
+                   "(same_name_classes_share_slot), no round-trip claim",
     })
     chk.assumptions.extend(TRUSTED)
     return chk.finish(proof)
